@@ -165,7 +165,7 @@ def known_findings(ctx):
     from crlib import VERIF
     if KEY_TOL not in ctx.open_keys:
         return []
-    w = json.load(open(os.path.join(VERIF, "findings", "C04-tie.json")))
+    w = json.load(open(os.path.join(VERIF, "findings", "C14-slow.json")))
     g = w["game"]
     g["transition_list"] = [[tuple(t) for t in row] for row in g["transition_list"]]
     o = impl.solve(g, False)
